@@ -39,6 +39,7 @@ class C04(Prop):
     id = 'C04'
     k2_mask = {('server', 'id'), ('server', 'cust'), ('server', 'busy'), ('server', 'busy_time'), ('server', 'total_time'), ('server', '*'), ('ind', 'server'), ('ind', 'sst'), ('rec', 'server')}      # the slice of the engine state / records this property reads (DESIGN 7, table of slices)
     k2_frames = 40
+    k2_invs2 = {'srv2'}         # the stage-2 T2 invariants (Inv/AllRun2.invs2_b) this property answers for on real snapshots
     k2_invs = {'srv'}          # the T2 invariants (Inv/AllRun.invs_b) this property answers for on real snapshots
     num = 4
     regions = {'quick': [('core', 100), ('block', 140), ('routers', 40), ('renege', 40), ('sched', 60), ('sched_block', 60),
